@@ -952,6 +952,39 @@ func (de *dEval) runC14() {
 		}
 		faults = keep
 	}
+	// boundary values in the length fields of a few records (always kept): sign bit, sums that
+	// wrap a 32-bit addition, the 64 MiB limit and its neighbours, "reaches just past the end"
+	{
+		var offs []int64
+		for off, rl := range loc {
+			if !thorough && rl.File != target {
+				continue
+			}
+			offs = append(offs, off)
+		}
+		sort.Slice(offs, func(i, j int) bool { return offs[i] < offs[j] })
+		for n := 0; n < 5 && len(offs) > 0; n++ {
+			j := de.rng.Intn(len(offs))
+			rl := loc[offs[j]]
+			offs = append(offs[:j], offs[j+1:]...)
+			rest := uint32(int64(len(de.pristine[rl.File])) - rl.Pos)
+			vals := []uint32{0x7fffffff, 0x80000000, 0xffffffff, 0x40000000, 0x7ffffff0, 64 << 20, 64<<20 + 1, 64<<20 - 1, rest, rest + 1}
+			be := func(v uint32) []byte { return []byte{byte(v >> 24), byte(v >> 16), byte(v >> 8), byte(v)} }
+			cur := de.pristine[rl.File]
+			for _, v := range vals {
+				// (an overwrite with the bytes that are there already is no damage)
+				if !bytes.Equal(cur[rl.Pos+20:rl.Pos+24], be(v)) {
+					faults = append(faults, &Fault{Kind: "set", File: rl.File, Pos: rl.Pos + 20, Data: be(v), Mode: "keylen"})
+				}
+				if !bytes.Equal(cur[rl.Pos+24:rl.Pos+28], be(v)) {
+					faults = append(faults, &Fault{Kind: "set", File: rl.File, Pos: rl.Pos + 24, Data: be(v), Mode: "vallen"})
+				}
+			}
+			for _, pr := range [][2]uint32{{0x40000000, 0x40000000}, {0x7fffffff, 1}, {0x7fffffff, 0x7fffffff}, {32 << 20, 32<<20 + 1}} {
+				faults = append(faults, &Fault{Kind: "set", File: rl.File, Pos: rl.Pos + 20, Data: append(be(pr[0]), be(pr[1])...), Mode: "keylen+vallen"})
+			}
+		}
+	}
 	for _, f := range faults {
 		if f.Mode == "zero-tail" {
 			// a zero-filled tail is "cut short", not an in-place overwrite of one record: universal clauses only
